@@ -126,7 +126,7 @@ def classify(mod, fname, func):
     return {"law": law, "pmap": pmap, "out": osym, "guards": g, "params": params, "dims": dims}, None
 
 
-def make_args(r, info, wide, allow_negative=True):
+def make_args(r, info, wide, allow_negative=True, floats=False):
     """-> (kwargs of Quantities, exact scale factors per symbol, description)"""
     import sympy
     from symplyphysics import Quantity
@@ -144,6 +144,8 @@ def make_args(r, info, wide, allow_negative=True):
         pre = r.choice([0, 0, 0, 3, -3, 6, -2])
         unit = dimension_to_si_unit(dim)
         val = sympy.Rational(mag.numerator, mag.denominator)
+        if floats:
+            val = sympy.Float(float(mag))   # arguments given as floats (the reference uses the exact value of that float)
         q = Quantity(val * sympy.Integer(10) ** pre * unit) if unit != 1 else Quantity(val)
         kwargs[p] = q
         desc[p] = f"{float(mag):.6g}e{pre} {unit}"
@@ -244,7 +246,9 @@ def check_function(r, rec, mod, fname, func, info, tuples, tier, exceptions):
         wide = "very" if t % 4 == 3 else (tier == "thorough")
         for attempt in range(4):
             try:
-                kwargs, desc = make_args(r, info, wide if attempt < 2 else False, allow_negative=attempt == 0)
+                kwargs, desc = make_args(r, info, wide if attempt < 2 else False, allow_negative=attempt == 0, floats=(t % 3 == 1))
+                if t % 3 == 1:
+                    rec.hit("float_arguments")
             except Exception as e:  # pylint: disable=broad-except
                 rec.inconc("cannot build arguments: " + type(e).__name__)
                 return
@@ -323,6 +327,9 @@ def check_function(r, rec, mod, fname, func, info, tuples, tier, exceptions):
             break
     if held and not exc:
         sign_patterns(r, rec, func, info, key)
+    import sympy as _sp
+    if info["law"].has(_sp.Piecewise):
+        piecewise_boundary(r, rec, func, info, key)
     if exc and exc.get("op") == "ceil":
         ceil_near_integer(r, rec, func, info, key)
     if exc and exc.get("op") == "abs" and exc.get("signs", True):
@@ -380,6 +387,59 @@ def sign_patterns(r, rec, func, info, key):
         if not rel_close(rv, rstar, mpmath.mpf("1e-6")):
             rec.violation(f"not-a-solution:negative-arguments:{key}", f"{key}({desc}) with argument signs {signs} returned {mpmath.nstr(rv, 15)} but the law {info['law']} is solved by {mpmath.nstr(rstar, 12)}", case)
             return
+
+
+def piecewise_boundary(r, rec, func, info, key):
+    """laws with conditions (Piecewise): arguments exactly on the boundary of a condition between two parameters (equal
+    values, written in different units), just inside and just outside; the expected value is the law's right-hand side
+    evaluated with exact rationals by SymPy's own Piecewise (no library quantities involved)"""
+    import sympy
+    from sympy.core.relational import Relational
+    from symplyphysics import Quantity
+    from symplyphysics.core.dimensions import dimension_to_si_unit
+    from sympy.physics.units import prefixes as P
+    law, out = info["law"], info["out"]
+    if law.lhs != out:
+        return
+    inv = {v: k for k, v in info["pmap"].items()}
+    for rel in law.atoms(Relational):
+        if rel == law or not (rel.lhs in inv and rel.rhs in inv):
+            continue
+        pa, pb = inv[rel.lhs], inv[rel.rhs]
+        for ratio in (sympy.Integer(1), sympy.Rational(999999, 1000000), sympy.Rational(1000001, 1000000), sympy.Integer(2), sympy.Rational(1, 2)):
+            try:
+                kwargs, desc = make_args(r, info, False)
+            except Exception:  # pylint: disable=broad-except
+                return
+            unit = dimension_to_si_unit(info["dims"][pb])
+            base = Quantity(unit).scale_factor if unit != 1 else 1
+            si_b = sympy.nsimplify(kwargs[pb].scale_factor, rational=True)
+            val_a = si_b * ratio / sympy.nsimplify(base, rational=True)
+            # the same kind of value in another spelling: value*1000 x milli-unit
+            kwargs[pa] = Quantity(val_a * 1000 * P.milli * unit) if unit != 1 else Quantity(val_a)
+            sub = {info["pmap"][p]: sympy.nsimplify(q.scale_factor, rational=True) for p, q in kwargs.items()}
+            case = {"function": key, "arguments": {p: str(q.scale_factor) for p, q in kwargs.items()}, "condition": str(rel), "ratio": str(ratio)}
+            try:
+                want = sympy.sympify(law.rhs).xreplace(sub)
+                want = sympy.piecewise_fold(want) if want.has(sympy.Piecewise) else want
+                if want.has(sympy.Piecewise) or not want.is_number:
+                    rec.add("piecewise_reference_undecided")
+                    continue
+                with harness.Watchdog(30):
+                    res = func(**kwargs)
+                rv = sympy.sympify(res.scale_factor if hasattr(res, "scale_factor") else res)
+            except TimeoutError:
+                rec.add("piecewise_watchdog")
+                continue
+            except Exception:  # pylint: disable=broad-except
+                rec.add("piecewise_refused")
+                continue
+            rec.hit("piecewise_boundary_compared")
+            rec.case((key, "boundary", str(rel), str(ratio)), nontrivial=True)
+            same = (want == rv) if (want.is_infinite or rv.is_infinite) else rel_close(to_mp(rv), to_mp(want), mpmath.mpf("1e-6"))
+            if not same:
+                rec.violation(f"not-a-solution:condition-boundary:{key}", f"{key} with {pa} = {ratio} x {pb} ({rel}) returned {rv} but the law {law} gives {want}", case)
+                return
 
 
 def abs_with_signs(r, rec, func, info, key):
